@@ -78,6 +78,9 @@ class SectionOutput(Output):
                 string, flags=flags, new_line=new_line, with_indent=with_indent
             )
 
+        if not self._may_write(flags):
+            return
+
         erased_content = self._pop_stream_content_until_current_section()
 
         self.add_content(string)
